@@ -32,7 +32,7 @@ print(' '.join(out))
 PY
 )
 : > $OUT/vcheck.log
-for p in $packs; do ( VERIF_REPO=$W/repo bin/vcheck $p --tier quick --no-fixtures > $W/v.$p.log 2>&1; echo "exit=$? $p" >> $W/v.$p.log ) & done; wait
+for p in $packs; do ( VERIF_REPO=$W/repo VERIF_EVIDENCE_DIR=$W/ev bin/vcheck $p --tier quick --no-fixtures > $W/v.$p.log 2>&1; echo "exit=$? $p" >> $W/v.$p.log ) & done; wait
 for p in $packs; do cat $W/v.$p.log >> $OUT/vcheck.log; done
 python3 - "$NAME" "$T" "$packs" <<'PY'
 import json, sys, re
